@@ -362,7 +362,7 @@ func (w *World) do1(op Op) OpObs {
 		md := banktypes.Metadata{Description: "d " + base, Base: base, Display: "d" + base, Name: "n" + base, Symbol: "S",
 			DenomUnits: []*banktypes.DenomUnit{{Denom: base, Exponent: 0}, {Denom: "d" + base, Exponent: 18}}}
 		if strings.HasPrefix(base, "ibc/") {
-			md = banktypes.Metadata{Description: "d", Base: base, Display: "dibc" + base[60:], Name: "channel-0/" + base, Symbol: "S",
+			md = banktypes.Metadata{Description: "d", Base: base, Display: "dibc" + base[60:], Name: "channel-0/" + base, Symbol: "ibcS",
 				DenomUnits: []*banktypes.DenomUnit{{Denom: base, Exponent: 0}, {Denom: "dibc" + base[60:], Exponent: 18}}}
 		}
 		var content govtypes.Content
